@@ -193,11 +193,44 @@ var c01Templates = []diffTmpl{
 	{"local ok, a, b = pcall(function() return x, y end); emit(ok, a, b)", "num"},
 	{"emit(1); error(x)", "num"},
 	{"local a = x; pcall(function() a = y; error('e') end); emit(a)", "num"},
+	// constant conditions and jump threading
+	{"local n = 0; while true do if false then n = 100; n = 200 end; n = n + 1; if n > 3 then break end end; emit(n + x)", "int"},
+	{"local n = 0; repeat if nil then n = 50 end; n = n + 1 until n >= 3; emit(n + x)", "int"},
+	{"local n = 0; for i = 1, 3 do if true then n = n + i else n = 100 end; while false do n = 7 end end; emit(n + x)", "int"},
+	{"local n = 0; while n < 3 do n = n + 1; if n == 2 then goto c end; n = n + x - x; ::c:: end; emit(n)", "int"},
+	{"local s = 0; for i = 1, 3 do while true do if i == 2 then break end; s = s + i; break end end; emit(s + x)", "int"},
+	// assignment of logical expressions with nil/false/true operands into declared locals
+	{"local a, b, c = 1, 2, 3; a = x or nil; b = x and nil; c = nil and x; emit(a, b, c)", "any"},
+	{"local a, b, c = 1, 2, 3; a = x or false; b = x and true; c = false or x; emit(a, b, c)", "any"},
+	{"local a = 1; a = nil; local b = 2; b = x and y; local c = 3; c = x or y; emit(a, b, c)", "any"},
+	{"local t = {}; local a, g = x, nil; t.x, a, g = a, 'new', 1; emit(t.x, a, g)", "num"},
+	{"local b = {}; local first = b; local second = {}; b.v, b, g = x, second, 2; emit(first.v, second.v, g)", "num"},
+	{"local a, b, c, d = x, y, z, 0; a, b, c, d = d, c, b, a; emit(a, b, c, d); a, b = b, a, c; emit(a, b)", "num"},
+	// table constructors around the flush boundary
+	{"local function f() return x, y end; local t = {" + c01Items(50) + ", f()}; emit(#t, t[1], t[50], t[51], t[52])", "num"},
+	{"local function g() return x end; local t = {" + c01Items(50) + ", k = g()}; emit(#t, t[1], t[50], t.k)", "num"},
+	{"local function f() return x, y end; local t = {" + c01Items(100) + ", k = z, f()}; emit(#t, t[1], t[100], t[101], t[102], t.k)", "num"},
+	{"local function f() return x, y end; local t = {" + c01Items(49) + ", f()}; local u = {" + c01Items(51) + ", f()}; emit(#t, t[50], t[51], #u, u[52], u[53])", "num"},
+	{"local t = {" + c01Items(50) + "}; local u = {" + c01Items(51) + "}; emit(#t, t[50], #u, u[51], t[1] + x)", "num"},
+	{"local b = 5; b = (x or 2) and b; local c = 6; c = (x and 2) or c; local d = 7; d = x and y or d; emit(b, c, d)", "any"},
+	{"local t = {}; t.a = x and y; t.b = x or y; g = x and y; h = x or y; local l = x and y; emit(t.a, t.b, g, h, l)", "any"},
+	{"local b, c = 1, 2; b = not x and y; c = not (x or y); emit(b, c, not x == y)", "any"},
 	// string/number coercions
 	{"emit('10' + 1, '3' * '4', 10 .. '', '0x10' + 0, ' 5 ' + 0)", "num"},
 	{"emit(x + 1)", "any"},
 	{"emit(x .. 'a')", "str"},
 	{"emit(x < y)", "any2"},
+}
+
+func c01Items(n int) string {
+	var sb strings.Builder
+	for i := 1; i <= n; i++ {
+		if i > 1 {
+			sb.WriteString(", ")
+		}
+		sb.WriteString(itoa(i))
+	}
+	return sb.String()
 }
 
 func c01Inputs(kind string) []diffInput {
@@ -216,7 +249,7 @@ func c01Inputs(kind string) []diffInput {
 
 // C01.tmpl — whole-pipeline differential against R-lua.
 //
-//verif:harness prop=C01 tier=quick bounds="60 program templates organised by compiler special case (multiple assignment shapes, destination kinds, relational/logical contexts, loops, goto, tables, closures, varargs, errors, coercions); inputs: 3 symbolic float64 / 3 symbolic 32-bit integers / 2 values of any scalar type"
+//verif:harness prop=C01 tier=quick bounds="79 program templates organised by compiler special case (multiple assignment shapes, destination kinds, relational/logical contexts, loops, goto, tables, closures, varargs, errors, coercions); inputs: 3 symbolic float64 / 3 symbolic 32-bit integers / 2 values of any scalar type"
 func H_C01_tmpl() {
 	t := c01Templates[VChoice(len(c01Templates))]
 	diffRun(t.src, t.src, c01Inputs(t.kind), Options{})
@@ -278,12 +311,21 @@ var c03Templates = []diffTmpl{
 	{"local function outer() local v = x; local function mid() local function inner() v = v + y; return v end; return inner end; return mid() end; local f = outer(); emit(f(), f())", "num"},
 	{"local a = x; local function f() return a end; a = y; emit(f()); local function g() a = z end; g(); emit(a, f())", "num"},
 	{"local fs = {}; for i = 1, 2 do for j = 1, 2 do fs[#fs + 1] = function() return i * 10 + j + x end end end; emit(fs[1](), fs[2](), fs[3](), fs[4]())", "int"},
+	{"local fs = {}; for i = 1, 2 do do local v = i + x; fs[i] = function() return v end; if i == 1 then break end end end; local function junk(a, b, c, d) return d end; junk(5, 6, 7, 8); emit(fs[1]())", "int"},
+	{"local fs = {}; for i = 1, 2 do if i then local v = i + x; fs[i] = function() return v end; break end end; local function junk(a, b, c, d) return d end; junk(5, 6, 7, 8); emit(fs[1]())", "int"},
+	{"local a = x; local f = function() return a end; do goto l; ::l:: end; a = y; emit(f())", "num"},
+	{"local a = x; local function inc() a = a + 1 end; for i = 1, 2 do if i == 1 then goto c end; inc(); ::c:: end; inc(); emit(a)", "int"},
+	{"fs = {}; n = 0; repeat local v = n + x; n = n + 1; fs[n] = function() return v end until n >= 3; emit(fs[1](), fs[2](), fs[3]())", "int"},
+	{"local function mk() repeat local v = x; k = function() v = v + 1; return v end; if k then break end until true end; mk(); local function junk(a, b, c) return c end; junk(1, 2, 3); emit(k(), k())", "int"},
+	{"fs = {}; i = 0; while i < 2 do i = i + 1; local v = i * x; fs[i] = function() return v end end; emit(fs[1](), fs[2]())", "int"},
+	{"fs = {}; for i = 1, 2 do local v = i + x; fs[i] = function() v = v + 1; return v end end; emit(fs[1](), fs[1](), fs[2]())", "int"},
+	{"local f; local ok = xpcall(function() local ok2 = pcall(function() local v = x; f = function() return v end; error('e') end); error('o') end, function(m) return m end); local function junk(a, b, c, d) return d end; junk(1, 2, 3, 4); emit(f())", "num"},
 	{"local function tail(v) local function get() return v end; return (function(...) return ... end)(get) end; local g = tail(x); local function junk(a, b, c) return c end; junk(1, 2, 3); emit(g())", "num"},
 }
 
 // C03.tmpl — closures and captured variables on every exit path, whole pipeline against R-lua.
 //
-//verif:harness prop=C03 tier=quick bounds="15 closure templates: creation in numeric/generic for, while, repeat, do-blocks and calls; scope left by fall-through, break, goto, return, tail call, caught errors; register-reusing calls before use; inputs symbolic"
+//verif:harness prop=C03 tier=quick bounds="24 closure templates: creation in numeric/generic for, while, repeat, do-blocks and calls; scope left by fall-through, break, goto, return, tail call, caught errors; register-reusing calls before use; inputs symbolic"
 func H_C03_tmpl() {
 	t := c03Templates[VChoice(len(c03Templates))]
 	diffRun(t.src, t.src, c01Inputs(t.kind), Options{})
@@ -332,12 +374,16 @@ var c05Templates = []diffTmpl{
 	{"local ok, a, b = pcall(function(...) return ... end, x, y); emit(ok, a, b); emit(pcall(function() return end))", "num"},
 	{"local ok, e = pcall(function() assert(false, 'msg') end); emit(ok, type(e)); emit(pcall(assert, y, 'm')); emit(select('#', pcall(assert, nil)))", "num"},
 	{"emit('before'); error(x); emit('after')", "num"},
+	{"local t = {[''] = function() error(x) end}; local ok, e = pcall(function() t['']() end); emit(ok, e)", "num"},
+	{"local t = {[''] = function() error('s') end}; emit((pcall(function() t['']() end)), (pcall(t[''])))", "num"},
+	{"local n = 0; local function f() n = n + 1; if n < 3 then error(n) end; return n + x end; local r; repeat local ok, v = pcall(f); r = v until ok; emit(r, n)", "int"},
+	{"local a, b = x, y; local function seta(v) a = v end; local function getb() return b end; pcall(error, 'e'); local function setb(v) b = v end; setb(z); seta(1); emit(a, b, getb())", "num"},
 	{"local function lvl() error({v = x}) end; local ok, e = pcall(function() lvl() end); emit(ok, e.v)", "num"},
 }
 
 // C05.tmpl — errors contained by protected calls, whole pipeline against R-lua.
 //
-//verif:harness prop=C05 tier=quick bounds="14 error templates: error values of every type, faults, nested pcall, errors inside metamethods and iterators, retry loops, side effects before/after; inputs symbolic"
+//verif:harness prop=C05 tier=quick bounds="18 error templates: error values of every type, faults, nested pcall, errors inside metamethods and iterators, retry loops, side effects before/after; inputs symbolic"
 func H_C05_tmpl() {
 	t := c05Templates[VChoice(len(c05Templates))]
 	diffRun(t.src, t.src, c01Inputs(t.kind), Options{})
